@@ -71,6 +71,14 @@ def generate(seed: int, tier: str = "quick") -> dict:
         tr = {"kind": "pipe"}
     elif roll < 0.47:
         tr = {"kind": "bytesio"}
+    elif roll < 0.50:
+        # what open(path, "rb") returns: a real io.BufferedReader (peek / read1 / seek), small buffers make its edges frequent
+        tr = {"kind": "buffered", "buffer_size": r_sch.choice((1, 2, 3, 8, 16, 61, 64, 512, 8192))}
+    elif roll < 0.53:
+        # datagram socket: one recv per datagram; the application chose bufsize >= its largest datagram
+        sizes = sched.random_segments(r_sch, wire_len, spans, style=r_sch.choice(("aligned", "uniform", "few", "biased")))
+        cfg["bufsize"] = max(sizes + [1]) + r_sch.choice((0, 0, 1, 7, 100))
+        tr = {"kind": "dgram", "segments": sched.timed_segments(r_sch, sizes, 2.0), "timeout": 2.0, "end": r_sch.choice(("close", "timeout")), "host_delay": 0.0}
     elif roll < 0.8:
         tr = common.draw_transport(r_sch, wire_len, spans, kinds=("socket",))
         cfg["bufsize"] = r_sch.choice(sched.BUFSIZES)
@@ -83,6 +91,10 @@ def generate(seed: int, tier: str = "quick") -> dict:
             for s in segs[k:]:
                 s[0] = round(s[0] + r_sch.choice((1.5, 3.0, 10.0)), 6)
         tr = {"kind": "socket", "segments": segs, "timeout": 1.0, "end": r_sch.choice(("close", "timeout")), "host_delay": 0.0, "stress": "stall", "rereads": 14, "redrive": r_sch.choice(("read", "iter")), "nonblocking": r_sch.random() < 0.35}
+        if r_sch.random() < 0.3:
+            # after each end of stream the application throws its reader away and builds a new one on the SAME socket
+            tr["fresh_reader_on_reentry"] = True
+            tr["redrive"] = "read"
         if r_sch.random() < 0.25:
             # the application had another connection before this one: it read from it, closed it
             # locally and still holds that reader; the new socket gets the same descriptor number
@@ -126,6 +138,7 @@ def _drive(wire, cfg, tr):
     kw = reader_kwargs(cfg)
     kw["errorhandler"] = lambda err: out.events.append(("E",) + canon_exc(err))
     ends = 0
+    renew = False
     late = 0  # re-entries made after the peer had sent its last byte
     by_iteration = tr.get("redrive") == "iter"
     try:
@@ -134,6 +147,13 @@ def _drive(wire, cfg, tr):
         while ends <= rereads:
             if ends and hasattr(tp, "idle"):
                 tp.idle(1.0)  # the application waits a little before asking again
+            if ends and tr.get("fresh_reader_on_reentry") and renew:
+                renew = False
+                ubr = None  # drop the old reader (and its wrapper) first, as `reader = UBXReader(sock)` in a loop does
+                import gc  # pylint: disable=import-outside-toplevel
+
+                gc.collect()
+                ubr = UBXReader(tp, **kw)
             if hasattr(tp, "everything_arrived") and tp.everything_arrived():
                 late += 1
             if by_iteration:
@@ -147,6 +167,7 @@ def _drive(wire, cfg, tr):
                 raw, parsed = ubr.read()
             if raw is None and parsed is None:
                 ends += 1
+                renew = True
                 continue
             out.items.append((raw, canon_parsed(parsed)))
             if len(out.items) > len(wire) + 16:
@@ -192,6 +213,10 @@ def _run(scn, res=None):
         if "frames" in scn:
             link.count_fired(scn["frames"], c)
         c.hit(tr["kind"] + "_runs")
+        if tr["kind"] == "dgram":
+            c.hit("fault_datagram_boundaries", max(len(tr.get("segments") or ()) - 1, 0))
+        if tr.get("fresh_reader_on_reentry"):
+            c.hit("fresh_reader_on_reentry_runs")
         if tr.get("stress") == "stall":
             c.hit("stall_runs")
             c.hit("stall_redrive_" + str(tr.get("redrive")))
